@@ -129,7 +129,7 @@ def gen_expr(rng, locals_, depth=2):
   return ['sum', gen_expr(rng, locals_, depth - 1)]
 
 
-def gen_program(rng, n, max_depth=3, features=None, malformed=0.0):
+def gen_program(rng, n, max_depth=3, features=None, malformed=0.0, name_pool=None, input_shaped=0.0):
   """A program: classes {id: (body, ret)}, top id.  All arrays have length n (or 1)."""
   features = features or {'param', 'var', 'varset', 'sow', 'perturb', 'rng', 'child'}
   classes = {}
@@ -146,9 +146,10 @@ def gen_program(rng, n, max_depth=3, features=None, malformed=0.0):
       return nloc[0]
 
     def fresh_name():
-      cands = [x for x in NAMES if x not in used]
+      pool = name_pool or NAMES
+      cands = [x for x in pool if x not in used]
       if not cands or rng.random() < malformed:
-        return rng.choice(NAMES)
+        return rng.choice(pool)
       nm = rng.choice(cands)
       used.add(nm)
       return nm
@@ -156,7 +157,7 @@ def gen_program(rng, n, max_depth=3, features=None, malformed=0.0):
       r = rng.random()
       if r < 0.25 and 'param' in features:
         x = newloc()
-        body.append(['param', x, fresh_name(), rng.choice([n, n, 1]), rng.randint(-2, 3)])
+        body.append(['param', x, fresh_name(), 0 if rng.random() < input_shaped else rng.choice([n, n, 1]), rng.randint(-2, 3)])
         locals_.append(x)
       elif r < 0.40 and 'var' in features:
         x = newloc()
